@@ -8,7 +8,7 @@ CONSTANTS
   ConsSet <- BoolSet
   MaxSteps = 2
   Emit = TRUE
-  Refusals <- NoRefusals
+  Refusals <- BadPrmsSwitch
   MatChange = FALSE
   Mutant = "none"
 INVARIANT LatticeAdmissible
